@@ -8,9 +8,9 @@ os.makedirs(dst, exist_ok=True)
 shutil.copy(os.path.join(src, 'patch.diff'), dst)
 shutil.copy(os.path.join(src, 'demo.rs'), dst)
 meta = json.load(open(os.path.join(src, 'meta.json')))
-meta['property'] = pid
+meta['property'] = pid[:3]
 meta['confirmed_by_main_session'] = open(os.path.join(src, 'confirm.txt')).read()
 meta['detected_by'] = detected
-meta['how_to_rerun'] = 'git -C /repo apply /verif/seeded/%s/patch.diff && (cd /verif && bin/check %s); git -C /repo checkout -- .' % (name, pid)
+meta['how_to_rerun'] = 'git -C /repo apply /verif/seeded/%s/patch.diff && (cd /verif && bin/check %s); git -C /repo checkout -- .' % (name, pid[:3])
 json.dump(meta, open(os.path.join(dst, 'meta.json'), 'w'), indent=1)
 print('kept', dst)
